@@ -18,7 +18,16 @@ func (e *Engine) val(st *State, fr *Frame, v ssa.Value) Val {
 	case *ssa.Global:
 		return VPtr{L: &Loc{Kind: LGlobal, Global: x, Base: x.Type().(*types.Pointer).Elem()}, Elem: x.Type().(*types.Pointer).Elem()}
 	case *ssa.Function:
-		return VFunc{Fn: x}
+		// a named function used as a value: its identity is a positive constant of its own
+		if e.funcIds == nil {
+			e.funcIds = map[*ssa.Function]int64{}
+		}
+		id, ok := e.funcIds[x]
+		if !ok {
+			id = int64(900000000 + len(e.funcIds))
+			e.funcIds[x] = id
+		}
+		return VFunc{Fn: x, Id: Num(id), Sig: x.Signature}
 	case *ssa.Parameter:
 		for i, p := range fr.fn.Params {
 			if p == x {
